@@ -459,9 +459,45 @@ fn c03_refused_batch(rng: &mut Rng) -> Spec {
     spec
 }
 
+/// C03 sub-family: a batch that ends in Flush; the client reads for a while, then sends Sync.
+fn c03_flush(rng: &mut Rng) -> Spec {
+    let mut cfg = single_pool(if rng.chance(0.3) { "session" } else { "transaction" }, rng.range(1, 2) as u32, 0);
+    cfg.set("connect_timeout", 60000);
+    let mut p = Prog::new(1);
+    for _ in 0..rng.range(0, 2) {
+        p.new_txn();
+        let s = p.select(1, 0, "");
+        p.simple(s);
+    }
+    p.new_txn();
+    let rows = rng.range(1, 3);
+    let mut m = ext_batch(&mut p, rng, "", "", rows, 0, 0, false, false);
+    while !matches!(m.last(), Some(FrontMsg::E { .. })) {
+        m.pop();
+    }
+    m.push(FrontMsg::H);
+    let t = p.t;
+    p.steps.push(Step::Send { msgs: m, rfq: Some(0), cut: None, abort: false, txn: t });
+    p.steps.push(Step::Hold { until: None, max_ms: rng.range(100, 400) });
+    p.send(vec![FrontMsg::S]);
+    p.new_txn();
+    let s = p.select(1, 0, "");
+    p.simple(s);
+    p.steps.push(Step::Terminate);
+    let clients = vec![client(1, "app", "db", "apppw", rng.range(0, 10), p.steps)];
+    let mut spec = Spec { config_toml: cfg.render(), hosts: cfg.hosts(), net: net_calm(), clients, end: EndSpec { deadline_ms: 900_000, calm_ms: 100 }, ..Default::default() };
+    spec.params = params_from(&cfg);
+    spec.family = "relay/flush".into();
+    spec.oracles = vec!["c03_flush".into(), "liveness".into()];
+    spec
+}
+
 pub fn c03(rng: &mut Rng, thorough: bool, idx: u64) -> Spec {
     if idx % 8 == 6 {
         return c03_refused_batch(rng);
+    }
+    if idx % 16 == 9 {
+        return c03_flush(rng);
     }
     let mut mix = Mix::swarm(rng);
     mix.big_replies = rng.chance(0.8);
